@@ -39,6 +39,16 @@ def flatten(facts_):
             yield f
 
 
+def flatten_all(facts_):
+    """all atomic facts, also those inside disjunctions (used only to find which variables a guard talks about)"""
+    for f in facts_:
+        if f[0] == 'or':
+            for alt in f[1]:
+                yield from flatten_all(alt)
+        elif f[0] in ('truth', 'cmp'):
+            yield f
+
+
 def views(tier):
     return ['V0', 'V1'] if tier == 'quick' else ['V0', 'V1', 'noSEQ']
 
@@ -136,7 +146,7 @@ def analyse(facts, tier):
         lambda x, gf: first_arg_is_channel(x) and const_of(x['a'][2]) == en['Sustain_ANY'] and const_of(x['a'][1]) == -1, 'killSustainingNotes(channel, -1, Sustain_ANY)')
 
     # killSustainingNotes itself: clears exactly the requested bits, erases only clean users, matches channel or all
-    ok_mask = ok_erase = ok_keydown = False
+    ok_mask = ok_erase = ok_keydown = ok_filter = False
     for b, j, st in ks.cfg.stmts():
         for x in walk(st['s']):
             ap = assign_parts(x)
@@ -144,17 +154,26 @@ def analyse(facts, tier):
                 r = strip(ap[1])
                 if r.get('k') == 'UnaryOperator' and r['op'] == '~' and strip(r['e']).get('parm'):
                     ok_mask = True
+                # the hold bits of OTHER MIDI channels are not touched: the store sits under `midCh < 0 || loc.MidCh == midCh`
+                chan_param = ks.params[0]['id']
+                for f in flatten_all(guard_facts(ks, b, st)):
+                    body = f[1] if f[0] == 'truth' else [f[2], f[3]]
+                    if mentions(body, member_named('MidCh')) and mentions(body, lambda y: y.get('k') == 'DeclRefExpr' and y.get('id') == chan_param):
+                        ok_filter = True
         for b2, j2, st2, call in users_calls(ks, 'erase'):
             gf = guard_facts(ks, b2, st2)
             if any(f[0] == 'cmp' and f[1] == '==' and mentions(f[2], member_named('sustained')) and const_of(f[3]) == 0 for f in gf):
                 ok_erase = True
             # sostenuto marks notes whose keys are still down: releasing a hold must not remove the user of a key that is down
             # (the note is still listed in activenotes with this chip channel)
-            if any(mentions(f[1] if f[0] == 'truth' else [f[2], f[3]], lambda y: short(callee_name(y)) in ('phys_find', 'find_activenote')) for f in flatten(guard_facts(ks, b2, st2, sd=single_defs(ks.d)))):
+            if any(mentions(f[1] if f[0] == 'truth' else [f[2], f[3]], lambda y: short(callee_name(y)) == 'phys_find') for f in flatten(guard_facts(ks, b2, st2, sd=single_defs(ks.d)))):
                 ok_keydown = True
+    obls.append(Obl('C05.R2', ks.name, 'hold bits are cleared only for the addressed MIDI channel', ks.loc, 'discharged' if ok_filter else 'finding',
+                    why='sustained &= ~type under (midCh < 0 || loc.MidCh == midCh)' if ok_filter else
+                    'the hold bits are cleared before the MIDI-channel filter: lifting the pedal of one channel un-holds the held notes of every other channel without releasing them'))
     obls.append(Obl('C05.R2', ks.name, 'a released hold never removes the user of a key that is still down', ks.loc, 'discharged' if ok_keydown else 'finding',
-                    why='erase guarded by "no active note owns this chip channel"' if ok_keydown else
-                    'sostenuto (and CC121) mark / release users whose keys are still down: releasing the hold erases the user and keys the chip channel off while the key is held'))
+                    why='erase guarded by "no active note owns this chip channel" (find_activenote + phys_find on the chip channel)' if ok_keydown else
+                    'the removal of a user whose hold is released is not guarded by "an active note still owns THIS chip channel" (find_activenote + phys_find): either a key that is still down loses its chip channel (sostenuto marks key-down notes), or a stale user of a re-struck key is kept for ever'))
     obls.append(Obl('C05.R2', ks.name, 'clears the requested hold bits, erases only clean users', ks.loc, 'discharged' if (ok_mask and ok_erase) else 'finding',
                     why='sustained &= ~type; erase only when sustained == Sustain_None' if (ok_mask and ok_erase) else 'hold-bit clearing / erase condition not found'))
 
@@ -255,6 +274,36 @@ def analyse(facts, tier):
                         why='noteOff(channel, note, velocity != 0)' if forced[1] else 'the key-off that precedes a re-strike may be deferred (%s): the old voice is then overwritten while still keyed on' % forced[2]))
     else:
         obls.append(Obl('C05.R4', non.name, 'implicit key-off before re-key-on is forced', non.loc, 'finding', why='no noteOff call before the key-on'))
+
+    # the countdown of a young drum note: the test that skips an expired note and the test that fires the deferred key-off after the
+    # decrement must be the same predicate on ttl — a value that is skipped but never fired is a note that is never keyed off
+    skip = fire = None
+    for bid, blk in ti.cfg.blocks.items():
+        c = blk.get('cond')
+        if c is None or blk.get('term') != 'IfStmt':
+            continue
+        for f in literals(c, True):
+            nrm = None
+            if f[0] == 'cmp' and strip(f[2]).get('k') == 'DeclRefExpr':
+                cv = const_of(f[3])
+                if cv is None and isinstance(strip(f[3]), dict) and 'fc' in strip(f[3]):
+                    cv = strip(f[3])['fc']
+                if cv is not None:
+                    nrm = (f[1], f[2], cv)
+            if not (nrm and strip(nrm[1]).get('k') == 'DeclRefExpr' and short(strip(nrm[1])['n']) == 'ttl'):
+                continue
+            tb = ti.cfg.blocks[blk['succ'][0]]
+            cont = tb.get('term') == 'ContinueStmt' or any(st['s'].get('k') == 'ContinueStmt' for st in tb['stmts'])
+            if cont:
+                skip = (nrm[0], nrm[2], blk.get('cloc'))
+            else:
+                fire = (nrm[0], nrm[2], blk.get('cloc'))
+    if skip is None or fire is None:
+        raise build.AnalysisBroken('C05.R4: the two ttl tests of TickIterators were not recognised')
+    okt = skip[:2] == fire[:2]
+    obls.append(Obl('C05.R4', ti.name, 'expiry test matches the skip test', fire[2], 'discharged' if okt else 'finding',
+                    why='both test ttl %s %s' % skip[:2] if okt else
+                    'a note is skipped as expired when ttl %s %s but its deferred key-off fires only when ttl %s %s: a countdown that lands exactly on the boundary is never keyed off' % (skip[0], skip[1], fire[0], fire[1])))
 
     # ---- R5
     rp = facts.fn('OPNMIDIplay::realTime_panic')
